@@ -31,6 +31,16 @@ fn g_from(rng: &mut Rng, tier: Tier) -> Case {
             c.push_f(&[gen::angle(rng)]);
         }
     }
+    // one case in five: the middle angle on a geometric ladder around +-90 degrees
+    // (distance 10^-1 .. 10^-12), the region where cos y underflows towards 0
+    if rng.chance(1, 5) {
+        let q = if deg { 90.0 } else { std::f64::consts::FRAC_PI_2 };
+        let k = rng.range(1, 12) as i32;
+        let side = if rng.bool() { 1.0 } else { -1.0 };
+        let sign = if rng.bool() { 1.0 } else { -1.0 };
+        c.f[1] = sign * (q + side * q * 10f64.powi(-k));
+        c.class = 1;
+    }
     let f = &c.f;
     c.nontrivial = t && f[0] != 0.0 && f[1] != 0.0 && f[2] != 0.0 && f[0] != f[1] && f[1] != f[2] && f[0] != f[2];
     c
@@ -212,9 +222,120 @@ const EP_EX: &[&str] = &["Euler::from(Quaternion)", "Matrix3::from(Euler)"];
 
 pub fn clauses() -> Vec<Clause> {
     vec![
-        clause!("from_euler", EP_FROM, g_from, from_euler, weight = 1.5, classes = 0),
+        clause!("from_euler", EP_FROM, g_from, from_euler, weight = 1.5, classes = 2),
         clause!("extract", EP_EX, g_extract, extract, weight = 3.0, classes = 0),
     ]
+}
+
+/// Native f32 / f64 runs of the statement itself: the four values built from
+/// Euler{x,y,z} against from_angle_x(x) * from_angle_y(y) * from_angle_z(z)
+/// built by the crate's own elementary rotations, element by element.  The
+/// angle families add what the interval engine cannot decide (its enclosures of
+/// sin/cos are a few ulp wide): the middle angle within 1e-1 .. 1e-12 of +-90
+/// degrees, where cos y is tiny but not zero, and angles of many turns.
+/// Allowance 512 eps on every element (all elements are at most 1 in size; the
+/// unchanged code stays below 4 eps).
+pub fn native_equal_product(cfg: &cgv_core::fw::RunCfg, extra: &mut cgv_core::fw::Extra) {
+    use cgmath::{BaseFloat, Vector3};
+    use cgv_core::acc::Acc;
+    use serde_json::json;
+    fn run<T: BaseFloat>(tag: &str, ang: [f64; 3], deg: bool, eps: f64, acc: &mut Acc, inputs: &dyn Fn() -> serde_json::Value) {
+        let f = |x: f64| T::from(x).unwrap();
+        let g = |x: T| x.to_f64().unwrap();
+        let (m3e, m4e, b3e, qe, prod): (Matrix3<T>, Matrix4<T>, Basis3<T>, Quaternion<T>, Matrix3<T>) = if deg {
+            let e = Euler::new(Deg(f(ang[0])), Deg(f(ang[1])), Deg(f(ang[2])));
+            (
+                Matrix3::from(e),
+                Matrix4::from(e),
+                Basis3::from(e),
+                Quaternion::from(e),
+                Matrix3::from_angle_x(e.x) * Matrix3::from_angle_y(e.y) * Matrix3::from_angle_z(e.z),
+            )
+        } else {
+            let e = Euler::new(Rad(f(ang[0])), Rad(f(ang[1])), Rad(f(ang[2])));
+            (
+                Matrix3::from(e),
+                Matrix4::from(e),
+                Basis3::from(e),
+                Quaternion::from(e),
+                Matrix3::from_angle_x(e.x) * Matrix3::from_angle_y(e.y) * Matrix3::from_angle_z(e.z),
+            )
+        };
+        let mq = Matrix3::from(qe);
+        let mb: Matrix3<T> = b3e.into();
+        let tol = 512.0 * eps;
+        for c in 0..3 {
+            for r in 0..3 {
+                let want = g(prod[c][r]);
+                acc.check(&format!("{tag} Matrix3::from(Euler)[{c}][{r}] vs Rx*Ry*Rz"), g(m3e[c][r]), want, tol, inputs);
+                acc.check(&format!("{tag} Matrix4::from(Euler)[{c}][{r}] vs Rx*Ry*Rz"), g(m4e[c][r]), want, tol, inputs);
+                acc.check(&format!("{tag} Basis3::from(Euler)[{c}][{r}] vs Rx*Ry*Rz"), g(mb[c][r]), want, tol, inputs);
+                acc.check(&format!("{tag} Quaternion::from(Euler) as matrix [{c}][{r}] vs Rx*Ry*Rz"), g(mq[c][r]), want, tol, inputs);
+            }
+        }
+        let v = Vector3::new(f(1.0), f(-2.0), f(0.5));
+        let (a, b) = (qe * v, prod * v);
+        for i in 0..3 {
+            acc.check(&format!("{tag} Quaternion::from(Euler)*v [{i}] vs (Rx*Ry*Rz)*v"), g(a[i]), g(b[i]), 4.0 * tol, inputs);
+        }
+    }
+    let n = if cfg.tier == Tier::Quick { 3000 } else { 200_000 };
+    let mut acc = Acc::new("c07_euler_equals_product");
+    for i in 0..n {
+        let mut rng = Rng::for_case(cfg.seed, "native_equal_product", i);
+        let deg = rng.chance(1, 3);
+        let q = if deg { 90.0 } else { std::f64::consts::FRAC_PI_2 };
+        // every angle exactly representable in f32, so both runs see the same triple
+        let snap = |x: f64| (x as f32) as f64;
+        let mut ang = [0.0f64; 3];
+        for a in ang.iter_mut() {
+            *a = snap(rng.uniform(-4.0 * q, 4.0 * q));
+        }
+        let class = rng.below(3);
+        match class {
+            1 => {
+                let k = rng.range(1, 12) as i32;
+                let side = if rng.bool() { 1.0 } else { -1.0 };
+                let sign = if rng.bool() { 1.0 } else { -1.0 };
+                ang[1] = sign * (q + side * q * 10f64.powi(-k));
+                acc.case("middle angle 10^-k from +-90 degrees (k = 1..12)");
+            }
+            2 => {
+                for a in ang.iter_mut() {
+                    *a = snap(rng.uniform(-8192.0, 8192.0) * if deg { 57.0 } else { 1.0 });
+                }
+                acc.case("angles of up to 1300 turns");
+            }
+            _ => acc.case("angles within two turns"),
+        }
+        let ang32 = [snap(ang[0]), snap(ang[1]), snap(ang[2])];
+        let in64 = || json!({"angles": ang, "degrees": deg, "type": "f64", "index": i});
+        let in32 = || json!({"angles": ang32, "degrees": deg, "type": "f32", "index": i});
+        match cgv_core::fw::catch(|| {
+            let mut local = Acc::new("c07_euler_equals_product");
+            run::<f64>("f64", ang, deg, f64::EPSILON, &mut local, &in64);
+            run::<f32>("f32", ang32, deg, f32::EPSILON as f64, &mut local, &in32);
+            local
+        }) {
+            Ok(l) => {
+                acc.checks += l.checks;
+                acc.worst = acc.worst.max(l.worst);
+                if acc.fail.is_none() {
+                    acc.fail = l.fail;
+                }
+            }
+            Err(p) => acc.truth(&format!("unexpected panic: {p}"), false, &in64),
+        }
+        if acc.failed() {
+            break;
+        }
+    }
+    acc.finish(extra, "the crate's own from_angle_x * from_angle_y * from_angle_z on the same native type; allowance 512 eps per element");
+}
+
+pub fn native(cfg: &cgv_core::fw::RunCfg, extra: &mut cgv_core::fw::Extra) {
+    cgv_core::twins::c07(cfg, extra);
+    native_equal_product(cfg, extra);
 }
 
 pub const RULE: &str = "from_euler: angle triples (one third Deg) on a 2^-20 grid in [-4pi,4pi] / [-400,400] degrees plus special values, non-trivial when the three angles are non-zero and distinct. extract: family 0 arbitrary rational unit quaternions; family 1 exact rational quaternions of Rx(a)Ry(b)Rz(c) with tan(b/4) = p/k near tan(pi/8) so that |sin b| lies in roughly [0.97,1] on both sides of 0.998 and at the poles; family 2 real-valued ladder |sin y| = 0.998 -+ r*10^-k (k=1..9) normalised inside the engine. The zone (|sin y| <= 0.998 or not) is decided by the model's own M[2][0]; cases where the enclosure cannot separate it from 0.998 demand nothing. Distinct = distinct input tuples.";
